@@ -256,6 +256,7 @@ func (r *rig) judge() *gx.Outcome {
 			connErr bool // the request carrying it ended in a connection-level failure (no response)
 		}
 		seenB := map[key][]*sent{}
+		connErrSeen := false // a connection-level failure happened earlier in the run (the worker then re-queues everything it holds one by one)
 		for _, pe := range r.cl.Produced {
 			connErr := pe.Fault == "drop" || pe.Fault == "drop-appended"
 			for _, b := range pe.Batches {
@@ -277,7 +278,7 @@ func (r *rig) judge() *gx.Outcome {
 				if prev != nil {
 					if fmt.Sprint(prev.ids) != fmt.Sprint(ids) {
 						sig := "resend-differs after-response" + bumped
-						if prev.connErr {
+						if prev.connErr || connErrSeen {
 							// known class: after a connection-level failure the producer re-queues the
 							// messages one by one and batches them afresh
 							sig = "resend-rebatched-after-connection-error"
@@ -296,7 +297,7 @@ func (r *rig) judge() *gx.Outcome {
 				if b.FirstSeq != want {
 					sig := "sequence-gap" + bumped
 					for _, x := range l {
-						if x.connErr && bumped == "" {
+						if (x.connErr || connErrSeen) && bumped == "" {
 							// consequence of the known re-batching after a connection-level failure: the messages of the
 							// failed batch come back one by one and are merged with later ones under their old numbers
 							sig = "sequence-gap after-connection-error-rebatch"
@@ -311,6 +312,7 @@ func (r *rig) judge() *gx.Outcome {
 				}
 				seenB[k] = append(l, &sent{b.FirstSeq, ids, connErr})
 			}
+			connErrSeen = connErrSeen || connErr
 		}
 	}
 
